@@ -304,13 +304,20 @@ def _worker(job, chk):
     w0 = World(cfg)
     seen = {w0.canon(): ()}
     frontier = collections.deque([()])
+    # a second root: the client has been idle for longer than dead_timeout since construction
+    # (its last dead-check time is old) - the full depth is explored from there too
+    old = menu.index(("adv", ADVANCES[-1]))
+    if n == 2:
+        w1 = build(cfg, menu, (old,))
+        seen[w1.canon()] = (old,)
+        frontier.append((old,))
     transitions = 0
     troubled = 0
     hit_cap = False
     depth_reached = 0
     while frontier:
         hist = frontier.popleft()
-        if len(hist) >= max_depth:
+        if len(hist) >= max_depth + (1 if hist[:1] == (old,) else 0):
             hit_cap = True
             continue
         depth_reached = max(depth_reached, len(hist) + 1)
